@@ -798,8 +798,14 @@ def _desugar_factors_with_weights(design: List[Factor],
             if isinstance(f, DerivedFactor):
                 # Uses `replacements`:
                 f.desugar_for_weights(replacements)
-        # Returned `replacements` is also used for constraint desugaring
-        return (list(chain.from_iterable([replacements.get(f, [f]) for f in design])),
+        # Returned `replacements` is also used for constraint desugaring.
+        # A desugared derived factor maps to the same new factor twice, so
+        # make sure each replacement lands in the design only once.
+        new_design = cast(List[Factor], [])
+        for f in chain.from_iterable([replacements.get(f, [f]) for f in design]):
+            if f not in new_design:
+                new_design.append(f)
+        return (new_design,
                 [[replacements.get(f, [f, f])[1] for f in c] for c in crossings],
                 replacements)
 
